@@ -168,6 +168,7 @@ Definition list_days (s : fs) (i : string) : res (list (path * string * content)
 
 (* ------------------------------------------------------------------ sorting *)
 
+
 Fixpoint insert_by {A} (le : A -> A -> bool) (a : A) (l : list A) : list A :=
   match l with [] => [a] | b :: t => if le a b then a :: l else b :: insert_by le a t end.
 Definition sort_by {A} (le : A -> A -> bool) (l : list A) : list A := fold_right (insert_by le) [] l.
@@ -189,6 +190,19 @@ Record names := mkNames {
   n_stage : string;                             (* os.MkdirTemp(dst, ".gpdb-merge-stage-*") *)
   n_ns : string                                 (* time.Now().UnixNano() of a commit *)
 }.
+
+(* gpfile.binarySearchPrefix as fixed (used by genWritePathForTimestamp of the DirWriter and by recoverDirPath
+   of the DirReader): the entries of the month directory whose name starts with the day timestamp and is
+   not a merge backup; the search returns one of them, or nothing *)
+Definition prefix_entry (i y m pfx : string) (e : path * node) : option string :=
+  match e with
+  | ([i'; y'; m'; dn], _) =>
+    if String.eqb i' i && String.eqb y' y && String.eqb m' m && has_prefix pfx dn && negb (is_backup dn)
+    then Some dn else None
+  | _ => None
+  end.
+Definition prefix_matches (nm : names) (s : fs) (i : string) (ts : Z) : list string :=
+  filter_map (prefix_entry i (fst (n_ym nm ts)) (snd (n_ym nm ts)) (n_tsname nm ts)) s.
 
 Definition tolerance (o : opts) : Z := if o_tol o <=? 0 then 300 else o_tol o.
 Definition dir_ts (ts : Z) : Z := Z.quot ts 86400 * 86400.
